@@ -1,5 +1,5 @@
 CONSTANT Sets = {1, 2, 4}
-CONSTANT Gs = {1, 3, 4, 16}
+CONSTANT Gs = {1, 2, 3, 4, 16}
 CONSTANT Reps = 2
 INIT Init
 NEXT Next
